@@ -35,6 +35,9 @@ pub struct S {
     pub actions: Vec<String>,
     pub all: Vec<Block>,
     pub sent_msgs: Vec<ConsensusMessage>,
+    pub sync_retry_ms: u64,
+    /// Set by scripts after which R must have committed up to the lock block (C07 catch-up).
+    pub expect_catch_up: bool,
 }
 
 fn rand_digest(rng: &mut StdRng) -> Digest {
@@ -220,6 +223,14 @@ impl S {
         } else {
             let tc = if need_tc { Some(self.tc_for(round - 1, self.tip_qc.round)) } else { None };
             b = self.p.mk_block(leader, round, self.tip_qc.clone(), tc, payload);
+            if deliver && self.rng.gen_bool(0.15) {
+                if let Some((what, bad)) = corrupt(&mut self.rng, &self.p, ConsensusMessage::Propose(b.clone())) {
+                    self.act(format!("invalid variant (fresh): {}", what));
+                    let from = *self.p.puppets().choose(&mut self.rng).unwrap();
+                    self.p.send(from, &bad).await;
+                    self.p.settle().await;
+                }
+            }
             if deliver {
                 self.act(format!("propose r{} on r{}{}", round, self.tip.round, if need_tc { " with TC" } else { "" }));
                 self.deliver(&b).await;
@@ -271,6 +282,8 @@ pub async fn start(seed: u64, p: &Params, rng: &mut StdRng) -> S {
         actions: Vec::new(),
         all: Vec::new(),
         sent_msgs: Vec::new(),
+        sync_retry_ms,
+        expect_catch_up: false,
     }
 }
 
@@ -286,7 +299,13 @@ async fn random_script(s: &mut S, steps: usize) {
                 if s.rng.gen_bool(0.25) {
                     let k = s.rng.gen_range(1, 4);
                     for _ in 0..k {
-                        let d = rand_digest(&mut s.rng);
+                        // sometimes a digest that an earlier, still parked block is also waiting for
+                        let reuse = !s.pending_batches.is_empty() && s.rng.gen_bool(0.3);
+                        let d = if reuse { s.pending_batches[s.rng.gen_range(0, s.pending_batches.len())].clone() } else { rand_digest(&mut s.rng) };
+                        if reuse {
+                            payload.push(d);
+                            continue;
+                        }
                         if s.rng.gen_bool(0.6) {
                             s.p.store_batch(&d).await;
                         } else {
@@ -337,8 +356,15 @@ async fn random_script(s: &mut S, steps: usize) {
                     let a = s.p.topo.index_of(&orig.author).unwrap();
                     let b2 = s.p.mk_block(a, orig.round, orig.qc.clone(), orig.tc.clone(), vec![]);
                     if b2.digest() != orig.digest() || true {
-                        let d = rand_digest(&mut s.rng);
-                        s.p.store_batch(&d).await;
+                        let shared: Option<Digest> = orig.payload.iter().find(|d| s.pending_batches.contains(d)).cloned();
+                        let d = match shared {
+                            Some(d) if s.rng.gen_bool(0.7) => d,
+                            _ => {
+                                let d = rand_digest(&mut s.rng);
+                                s.p.store_batch(&d).await;
+                                d
+                            }
+                        };
                         let b2 = s.p.mk_block(a, orig.round, orig.qc.clone(), orig.tc.clone(), vec![d]);
                         s.act(format!("equivocating proposal for r{}", orig.round));
                         s.deliver(&b2).await;
@@ -483,7 +509,7 @@ pub fn corrupt(rng: &mut StdRng, p: &Puppets, m: ConsensusMessage) -> Option<(St
         crypto::generate_keypair(&mut r2)
     };
     Some(match m {
-        ConsensusMessage::Propose(mut b) => match rng.gen_range(0, 6) {
+        ConsensusMessage::Propose(mut b) => match rng.gen_range(0, 7) {
             0 => {
                 b.signature = flip_sig(rng, &b.signature);
                 ("block: signature bit flipped".into(), ConsensusMessage::Propose(b))
@@ -523,13 +549,36 @@ pub fn corrupt(rng: &mut StdRng, p: &Puppets, m: ConsensusMessage) -> Option<(St
                 if b.qc.votes.is_empty() {
                     return None;
                 }
-                b.qc.round += 1;
+                b.qc.round = b.qc.round.wrapping_add(1);
                 let a = p.topo.index_of(&b.author)?;
                 if a == p.r {
                     return None;
                 }
                 b.signature = p.topo.sign(a, &b.digest());
                 ("block: embedded QC round altered".into(), ConsensusMessage::Propose(b))
+            }
+            5 => {
+                // The digest does not cover the TC: anybody relaying a block can splice a forged TC
+                // onto it; its signature stays valid, the block must still be rejected.
+                let signers: Vec<usize> = p.puppets();
+                let far = b.round.saturating_add(rng.gen_range(1, 50));
+                let mut tc = p.mk_tc(far, &signers.iter().map(|i| (*i, 0)).collect::<Vec<_>>());
+                match rng.gen_range(0, 3) {
+                    0 => {
+                        // genuine signatures for another round
+                        tc.round = tc.round.wrapping_add(1);
+                    }
+                    1 => {
+                        for v in tc.votes.iter_mut() {
+                            v.1 = crypto::Signature::default();
+                        }
+                    }
+                    _ => {
+                        tc.votes.truncate(1);
+                    }
+                }
+                b.tc = Some(tc);
+                ("block: forged TC spliced onto a validly signed block".into(), ConsensusMessage::Propose(b))
             }
             _ => {
                 b.author = outsider.0;
@@ -543,7 +592,7 @@ pub fn corrupt(rng: &mut StdRng, p: &Puppets, m: ConsensusMessage) -> Option<(St
                 ("vote: signature bit flipped".into(), ConsensusMessage::Vote(v))
             }
             1 => {
-                v.round += 1;
+                v.round = v.round.wrapping_add(1);
                 ("vote: round altered after signing".into(), ConsensusMessage::Vote(v))
             }
             _ => {
@@ -558,7 +607,7 @@ pub fn corrupt(rng: &mut StdRng, p: &Puppets, m: ConsensusMessage) -> Option<(St
                 ("timeout: signature bit flipped".into(), ConsensusMessage::Timeout(t))
             }
             1 => {
-                t.round += 1;
+                t.round = t.round.wrapping_add(1);
                 ("timeout: round altered after signing".into(), ConsensusMessage::Timeout(t))
             }
             _ => {
@@ -581,11 +630,11 @@ pub fn corrupt(rng: &mut StdRng, p: &Puppets, m: ConsensusMessage) -> Option<(St
                 if tc.votes.is_empty() {
                     return None;
                 }
-                tc.votes[0].2 += 1;
+                tc.votes[0].2 = tc.votes[0].2.wrapping_add(1);
                 ("TC: reported high-QC round altered".into(), ConsensusMessage::TC(tc))
             }
             _ => {
-                tc.round += 1;
+                tc.round = tc.round.wrapping_add(1);
                 ("TC: round altered".into(), ConsensusMessage::TC(tc))
             }
         },
@@ -649,7 +698,8 @@ async fn directed(s: &mut S, class: &str) {
                 s.advance(vec![], true).await;
             }
         }
-        // D07: children before parents, depth k; answers only after the retry for some
+        // D07: children before parents, depth k; the first sync target may stay silent, in which case
+        // only *retried* requests (those R sends after the silence began) are answered.
         "d07" => {
             for _ in 0..2 {
                 s.advance(vec![], true).await;
@@ -658,19 +708,62 @@ async fn directed(s: &mut S, class: &str) {
             for _ in 0..depth {
                 s.advance(vec![], false).await;
             }
-            s.answer_sync_prob = if s.rng.gen_bool(0.5) { 1.0 } else { 0.0 };
+            let silent_first = s.rng.gen_bool(0.5);
+            s.answer_sync_prob = if silent_first { 0.0 } else { 1.0 };
             s.advance(vec![], true).await;
             for _ in 0..(depth + 2) {
                 s.settle().await;
             }
-            // retry path: wait for the synchronizer's timer, then answer everything
-            s.p.wait_ms(13_000).await;
+            if silent_first {
+                evlog::note("C07:first_sync_target_silent");
+            }
+            // Retry path: the synchronizer re-requests from everybody after sync_retry_delay, checked
+            // on a fixed 5 s timer. Requests that were ignored stay ignored; only new ones are served.
+            let ignored_upto = s.p.r_syncs.len();
+            s.p.wait_ms(s.sync_retry_ms + 11_000).await;
             s.answer_sync_prob = 1.0;
-            s.answered_syncs = 0;
-            for _ in 0..(depth + 4) {
+            s.answered_syncs = ignored_upto.min(s.answered_syncs.max(ignored_upto));
+            for _ in 0..(2 * depth + 6) {
                 s.settle().await;
             }
+            let early: std::collections::HashSet<Digest> = s.p.r_syncs[..ignored_upto].iter().map(|x| x.1.clone()).collect();
+            if s.p.r_syncs[ignored_upto..].iter().any(|x| early.contains(&x.1)) {
+                evlog::note("C07:retry_observed");
+            }
+            s.expect_catch_up = true;
             s.withheld.clear();
+            for _ in 0..4 {
+                s.advance(vec![], true).await;
+            }
+        }
+        // D19: round entered through a separately delivered TC; the proposal of that round is parked for
+        // a missing batch, resumed, voted; then R's timer fires (its timeout must carry the block's QC).
+        "d19" => {
+            for _ in 0..3 {
+                s.advance(vec![], true).await;
+            }
+            let mut guard = 0;
+            while (s.p.leader(s.cur + 1) == s.p.r || s.p.leader(s.cur) == s.p.r) && guard < 8 {
+                s.advance(vec![], true).await;
+                guard += 1;
+            }
+            // skip round cur: R learns TC(cur) from a TC message only
+            let skipped = s.cur;
+            let tc = s.tc_for(skipped, s.tip_qc.round);
+            let from = s.p.puppets()[0];
+            s.act(format!("TC message for r{} (R enters r{})", skipped, skipped + 1));
+            s.send(from, ConsensusMessage::TC(tc)).await;
+            s.settle().await;
+            s.cur += 1;
+            let d = rand_digest(&mut s.rng);
+            s.act("proposal with a missing batch");
+            s.advance(vec![d.clone()], true).await;
+            s.settle().await;
+            s.act("batch arrives");
+            s.p.store_batch(&d).await;
+            s.settle().await;
+            s.act("let R's timer fire");
+            s.p.fire_timer().await;
             for _ in 0..4 {
                 s.advance(vec![], true).await;
             }
@@ -855,7 +948,7 @@ async fn directed(s: &mut S, class: &str) {
             for _ in 0..2 {
                 s.advance(vec![], true).await;
             }
-            for variant in 0..6 {
+            for variant in 0..7 {
                 while s.p.leader(s.cur) == s.p.r {
                     s.advance(vec![], true).await;
                 }
@@ -906,6 +999,25 @@ async fn directed(s: &mut S, class: &str) {
                         }
                         s.settle().await;
                     }
+                    5 => {
+                        // two different blocks of one round (same parent) share one missing batch
+                        let shared = ds[0].clone();
+                        let (qc0, round0, tip0) = (s.tip_qc.clone(), s.cur, s.tip.clone());
+                        let a = s.advance(vec![shared.clone(), ds[ds.len() - 1].clone()], true).await;
+                        if let Some(a) = a {
+                            let leader = s.p.topo.index_of(&a.author).unwrap();
+                            let tc = a.tc.clone();
+                            let b = s.p.mk_block(leader, round0, qc0, tc, vec![shared.clone()]);
+                            let _ = tip0;
+                            s.act(format!("second block for r{} sharing a missing batch", round0));
+                            s.deliver(&b).await;
+                            s.settle().await;
+                        }
+                        for d in ds.iter().rev() {
+                            s.p.store_batch(d).await;
+                            s.settle().await;
+                        }
+                    }
                     _ => {
                         // duplicate digests and the digest of a stored block
                         let mut p2 = vec![ds[0].clone(), ds[0].clone()];
@@ -945,6 +1057,28 @@ pub fn execute(class: &str, seed: u64, p: &Params) -> PuppetOutcome {
         // Quiet period so that every loop-back / retry has run.
         s.p.wait_ms(50).await;
         let actions = s.actions.clone();
+        if s.expect_catch_up {
+            // What R must have committed: walking down from the last delivered certified block x, the
+            // first pair b0 <- b1 <- x' with consecutive rounds (x' carries the QC for b1).
+            let mut x = s.tip.clone();
+            let mut want = 0u64;
+            for _ in 0..10_000 {
+                let b1 = match s.p.blocks.get(&x.qc.hash) {
+                    Some(b) if b.round > 0 => b.clone(),
+                    _ => break,
+                };
+                let b0 = match s.p.blocks.get(&b1.qc.hash) {
+                    Some(b) if b.round > 0 => b.clone(),
+                    _ => break,
+                };
+                if b0.round + 1 == b1.round {
+                    want = b0.round;
+                    break;
+                }
+                x = b1;
+            }
+            evlog::note(format!("C07:expect_commit_round {}", want));
+        }
         let extra = json!({
             "n": s.p.topo.n, "r": s.p.r, "stakes": s.p.topo.stakes,
             "messages_sent_to_R": s.p.sent,
@@ -963,6 +1097,30 @@ pub fn run(class: &str, seed: u64, p: &Params) -> RunResult {
     let (mut report, _ix) = monitors::check_all(&ctx);
     // C01 needs several honest nodes: its counters are meaningless here.
     report.counters.retain(|k, _| !k.starts_with("C01."));
+    // C07 (puppet part): after a catch-up script R must have committed up to the head of the highest
+    // certified consecutive 2-chain it was shown.
+    let max_commit = out.log.iter().filter_map(|e| match &e.kind { Kind::App { block, .. } => Some(block.round), _ => None }).max().unwrap_or(0);
+    for e in &out.log {
+        if let Kind::Note { what } = &e.kind {
+            if let Some(x) = what.strip_prefix("C07:expect_commit_round ") {
+                let want: u64 = x.parse().unwrap_or(0);
+                report.count("C07.puppet_catch_ups_checked", 1);
+                if max_commit < want {
+                    report.violate(
+                        "C07",
+                        "lagging-node-did-not-catch-up",
+                        format!("the node was shown a certified chain up to a committable block of round {} (ancestors withheld, to be fetched by sync) but only committed up to round {}", want, max_commit),
+                        out.actions.iter().rev().take(30).rev().cloned().collect(),
+                    );
+                }
+            } else if what == "C07:retry_observed" {
+                report.sit("C07:retry_observed");
+                report.count("C07.retries_observed", 1);
+            } else if what == "C07:first_sync_target_silent" {
+                report.sit("C07:first_sync_target_silent");
+            }
+        }
+    }
     let fingerprint = monitors::fingerprint(&ctx);
     for (loc, msg, th) in evlog::take_panics() {
         report.violate("C15", format!("panic@{}", loc), format!("panic in thread {}: {}", th, msg), vec![]);
